@@ -319,6 +319,8 @@ def build_trees(cx, schemas, cases):
 def process(cx, schemas, cases, tag, laws=True, apply3=True):
     cases = build_trees(cx, schemas, cases)
     rng = cx.sub_rng("proc" + tag)
+    # repaired findings: the model follows the repaired code (LyModel.Diff.Fixes)
+    fx = "fx=" + (",".join(sorted(f[1:] for f in ("F50", "F56", "F58") if cx.findings.get(f, {}).get("status") == "fixed")) or "-")
     # ---- 1. diff correspondence (also gives the features used for the fragment and for classification)
     head = [schema_line("S%d" % i, s) for i, s in enumerate(schemas)]
     lines, idx = [], {}
@@ -326,7 +328,7 @@ def process(cx, schemas, cases, tag, laws=True, apply3=True):
         d = tg.hx(c.s.dsl())
         for o in (0, 1):
             i = "d%s%d.%d" % (tag, k, o)
-            lines.append("%s %s diff %s %s %s %d" % (i, COMP, d, c.a, c.b, o))
+            lines.append("%s %s diff %s %s %s %d %s" % (i, COMP, d, c.a, c.b, o, fx))
             idx[i] = (c, o)
         if rng.random() < 0.25:
             i = "k%s%d" % (tag, k)
@@ -358,9 +360,9 @@ def process(cx, schemas, cases, tag, laws=True, apply3=True):
             if o not in c.feat or not in_fragment(c.feat[o]):
                 cx.dist["out-of-fragment(apply)"] += 1
                 continue
-            lines.append("a%s%d.%d %s diffapply %s %s %s %d" % (tag, k, o, COMP, d, c.a, c.b, o))
+            lines.append("a%s%d.%d %s diffapply %s %s %s %d %s" % (tag, k, o, COMP, d, c.a, c.b, o, fx))
             if apply3 and c.c is not None and o == (k % 2) and not dupinst_has_duplicates(tg.untok(c.s, c.c)):
-                lines.append("m%s%d.%d %s apply3 %s %s %s %s %d" % (tag, k, o, COMP, d, c.a, c.b, c.c, o))
+                lines.append("m%s%d.%d %s apply3 %s %s %s %s %d %s" % (tag, k, o, COMP, d, c.a, c.b, c.c, o, fx))
     differential(cx, head, lines, kind, nontrivial)
     # ---- 3. the laws on the implementation
     if not laws:
@@ -457,7 +459,7 @@ def replay(cx, payload):
     o = f.get("opts") or 0
     head = [schema_line("S0", s)]
     d = tg.hx(s.dsl())
-    rep = cx.run_impl(HARNESS, head + ["l0 %s law %s %s %s %d" % (COMP, d, c.a, c.b, o), "d0 %s diff %s %s %s %d" % (COMP, d, c.a, c.b, o)], component=COMP, env=ENV)
+    rep = cx.run_impl(HARNESS, head + ["l0 %s law %s %s %s %d" % (COMP, d, c.a, c.b, o), "d0 %s diff %s %s %s %d fx=-" % (COMP, d, c.a, c.b, o)], component=COMP, env=ENV)
     c.feat[o] = f.get("features", [])
     eval_law(cx, c, o, rep.get("l0", ["err", "NoReply"]))
 
